@@ -18,8 +18,8 @@ pub type UGoal = UCanonical<InEnvironment<Goal<ChalkIr>>>;
 pub const I: ChalkIr = ChalkIr;
 
 /// default deterministic work budget per solve (units: SLG root-loop iterations + table creations,
-/// recursive `solve_goal` entries)
-pub const DEFAULT_BUDGET: u64 = 3_000;
+/// recursive `solve_goal` entries, goal-node folds)
+pub const DEFAULT_BUDGET: u64 = 20_000;
 
 pub fn work_bucket(w: u64) -> &'static str {
     match w {
@@ -27,7 +27,8 @@ pub fn work_bucket(w: u64) -> &'static str {
         10..=99 => "<100",
         100..=999 => "<1000",
         1000..=9999 => "<10000",
-        _ => ">=10000",
+        10000..=99999 => "<100000",
+        _ => ">=100000",
     }
 }
 
